@@ -23,72 +23,72 @@ Inductive qstate :=
 | QName (acc : list N)
 | QComment.
 
-Fixpoint ploop (rest : list N) (st : qstate) (address : ipaddr) (names : list dname)
-  : res herr (qstate * ipaddr * list dname) :=
+Fixpoint ploop (rest : list N) (st : qstate) (address : ipaddr) (bad : option (list N)) (names : list dname)
+  : res herr (qstate * ipaddr * option (list N) * list dname) :=
   match rest with
-  | [] => Ok (st, address, names)
+  | [] => Ok (st, address, bad, names)
   | c :: t =>
     match st with
-    | QComment => Ok (st, address, names)
+    | QComment => Ok (st, address, bad, names)
     | _ =>
       if negb (is_ascii c) then Err (ExpectedAscii c)
       else
         if c =? 35 then
           match st with
           | QName acc =>
-            let* names' := finish_name (Some acc) names in
-            ploop t QComment address names'
-          | _ => ploop t QComment address names
+            let* names' := finish_name_at bad (Some acc) names in
+            ploop t QComment address bad names'
+          | _ => ploop t QComment address bad names
           end
         else
           match st with
-          | QComment => Ok (st, address, names)
+          | QComment => Ok (st, address, bad, names)
           | QSkipAddr =>
-            if is_whitespace c then ploop t st address names
-            else ploop t (QAddr [c]) address names
+            if is_whitespace c then ploop t st address bad names
+            else ploop t (QAddr [c]) address bad names
           | QAddr acc =>
-            if c =? 37 then Ok (st, address, names)
+            if c =? 37 then Ok (st, address, bad, names)
             else if is_whitespace c then
               match parse_ip acc with
-              | Some addr => ploop t QSkipName addr names
-              | None => Err (CouldNotParseAddress acc)
+              | Some addr => ploop t QSkipName addr bad names
+              | None => ploop t QSkipName address (Some acc) names
               end
-            else ploop t (QAddr (acc ++ [c])) address names
+            else ploop t (QAddr (acc ++ [c])) address bad names
           | QSkipName =>
-            if is_whitespace c then ploop t st address names
-            else ploop t (QName [c]) address names
+            if is_whitespace c then ploop t st address bad names
+            else ploop t (QName [c]) address bad names
           | QName acc =>
             if is_whitespace c then
-              let* names' := finish_name (Some acc) names in
-              ploop t QSkipName address names'
-            else ploop t (QName (acc ++ [c])) address names
+              let* names' := finish_name_at bad (Some acc) names in
+              ploop t QSkipName address bad names'
+            else ploop t (QName (acc ++ [c])) address bad names
           end
     end
   end.
 
-Definition tail_q (r : qstate * ipaddr * list dname) : res herr (option (ipaddr * list dname)) :=
-  let '(st, address, names) := r in
+Definition tail_q (r : qstate * ipaddr * option (list N) * list dname) : res herr (option (ipaddr * list dname)) :=
+  let '(st, address, bad, names) := r in
   let* names' := match st with
-                 | QName acc => finish_name (Some acc) names
+                 | QName acc => finish_name_at bad (Some acc) names
                  | _ => Ok names
                  end in
   if is_nil names' then Ok None else Ok (Some (address, names')).
 
 Definition parse_line' (line : list N) : res herr (option (ipaddr * list dname)) :=
-  let* r := ploop line QSkipAddr LOCALHOST_V4 [] in tail_q r.
+  let* r := ploop line QSkipAddr LOCALHOST_V4 None [] in tail_q r.
 
-Definition tail_p (line : list N) (r : pstate * ipaddr * list dname) : res herr (option (ipaddr * list dname)) :=
-  let '(st, address, names) := r in
+Definition tail_p (line : list N) (r : pstate * ipaddr * option (list N) * list dname) : res herr (option (ipaddr * list dname)) :=
+  let '(st, address, bad, names) := r in
   let* names' := match st with
-                 | ReadingName start => finish_name (str_slice_from line start) names
+                 | ReadingName start => finish_name_at bad (str_slice_from line start) names
                  | _ => Ok names
                  end in
   if is_nil names' then Ok None else Ok (Some (address, names')).
 
 Lemma parse_line_unfold line :
-  parse_line line = (let* r := parse_loop line line 0 SkipToAddress LOCALHOST_V4 [] in tail_p line r).
+  parse_line line = (let* r := parse_loop line line 0 SkipToAddress LOCALHOST_V4 None [] in tail_p line r).
 Proof.
-  unfold parse_line, tail_p. destruct (parse_loop line line 0 SkipToAddress LOCALHOST_V4 []) as [[[st a] ns]| | |]; reflexivity.
+  unfold parse_line, tail_p. destruct (parse_loop line line 0 SkipToAddress LOCALHOST_V4 None []) as [[[[st a] b] ns]| | |]; reflexivity.
 Qed.
 
 Definition asciic (c : N) : Prop := c < 128.
@@ -147,12 +147,12 @@ Proof.
   rewrite <- app_assoc, llen_app. apply str_slice_mid; assumption.
 Qed.
 
-Lemma refine_loop rest : forall pre st q a ns,
+Lemma refine_loop rest : forall pre st q a b ns,
   Forall asciic pre -> srel pre st q ->
-  (let* r := parse_loop (pre ++ rest) rest (llen pre) st a ns in tail_p (pre ++ rest) r)
-  = (let* r := ploop rest q a ns in tail_q r).
+  (let* r := parse_loop (pre ++ rest) rest (llen pre) st a b ns in tail_p (pre ++ rest) r)
+  = (let* r := ploop rest q a b ns in tail_q r).
 Proof.
-  induction rest as [|c t IH]; intros pre st q a ns Hpre Hrel.
+  induction rest as [|c t IH]; intros pre st q a b ns Hpre Hrel.
   - rewrite app_nil_r. cbn [parse_loop ploop bind tail_p tail_q].
     destruct st, q; cbn [srel] in Hrel; try contradiction; try reflexivity.
     destruct Hrel as (p0 & -> & ->). apply Forall_app in Hpre as [H0 _].
@@ -177,8 +177,8 @@ Proof.
       destruct (c =? 37); [reflexivity|].
       destruct (is_whitespace c).
       * rewrite <- (snoc_assoc pre c t). rewrite (slice_at pre p0 acc c t Hp Hpre).
-        destruct (parse_ip acc); [|reflexivity].
-        rewrite (snoc_assoc pre c t). apply IH; [assumption|exact I].
+        rewrite (snoc_assoc pre c t).
+        destruct (parse_ip acc); apply IH; try assumption; exact I.
       * apply IH; [assumption|]. cbn [srel]. exists p0. split; [|reflexivity].
         rewrite Hp, app_assoc. reflexivity.
     + (* SkipToName *)
@@ -189,11 +189,11 @@ Proof.
       destruct Hrel as (p0 & Hp & ->).
       destruct (c =? 35).
       * rewrite <- (snoc_assoc pre c t). rewrite (slice_at pre p0 acc c t Hp Hpre).
-        destruct (finish_name (Some acc) ns) as [ns'| | |]; cbn [bind]; try reflexivity.
+        destruct (finish_name_at b (Some acc) ns) as [ns'| | |]; cbn [bind]; try reflexivity.
         rewrite (snoc_assoc pre c t). apply IH; [assumption|exact I].
       * destruct (is_whitespace c).
         -- rewrite <- (snoc_assoc pre c t). rewrite (slice_at pre p0 acc c t Hp Hpre).
-           destruct (finish_name (Some acc) ns) as [ns'| | |]; cbn [bind]; try reflexivity.
+           destruct (finish_name_at b (Some acc) ns) as [ns'| | |]; cbn [bind]; try reflexivity.
            rewrite (snoc_assoc pre c t). apply IH; [assumption|exact I].
         -- apply IH; [assumption|]. cbn [srel]. exists p0. split; [|reflexivity].
            rewrite Hp, app_assoc. reflexivity.
@@ -204,7 +204,7 @@ Qed.
 Theorem parse_line_refines line : parse_line line = parse_line' line.
 Proof.
   rewrite parse_line_unfold. unfold parse_line'.
-  apply (refine_loop line [] SkipToAddress QSkipAddr LOCALHOST_V4 []); [constructor|exact I].
+  apply (refine_loop line [] SkipToAddress QSkipAddr LOCALHOST_V4 None []); [constructor|exact I].
 Qed.
 
 (* ---- totality ---- *)
@@ -216,32 +216,37 @@ Proof.
   unfold finish_name. destruct (from_relative_dotted_string root_domain s); split; discriminate.
 Qed.
 
-Lemma ploop_total rest : forall q a ns, total (ploop rest q a ns).
+Lemma finish_name_at_total b s ns : total (finish_name_at b (Some s) ns).
 Proof.
-  induction rest as [|c t IH]; intros q a ns; cbn [ploop]; [split; discriminate|].
+  destruct b; cbn [finish_name_at]; [split; discriminate|apply finish_name_total].
+Qed.
+
+Lemma ploop_total rest : forall q a b ns, total (ploop rest q a b ns).
+Proof.
+  induction rest as [|c t IH]; intros q a b ns; cbn [ploop]; [split; discriminate|].
   destruct q; try (split; discriminate);
     (destruct (negb (is_ascii c)); [split; discriminate|]);
     destruct (c =? 35); try apply IH;
     try (destruct (is_whitespace c); apply IH).
   - destruct (c =? 37); [split; discriminate|].
-    destruct (is_whitespace c); [|apply IH]. destruct (parse_ip acc); [apply IH|split; discriminate].
-  - pose proof (finish_name_total acc ns) as [F1 F2].
-    destruct (finish_name (Some acc) ns); cbn [bind]; try apply IH; try (split; discriminate); contradiction.
+    destruct (is_whitespace c); [|apply IH]. destruct (parse_ip acc); apply IH.
+  - pose proof (finish_name_at_total b acc ns) as [F1 F2].
+    destruct (finish_name_at b (Some acc) ns); cbn [bind]; try apply IH; try (split; discriminate); contradiction.
   - destruct (is_whitespace c); [|apply IH].
-    pose proof (finish_name_total acc ns) as [F1 F2].
-    destruct (finish_name (Some acc) ns); cbn [bind]; try apply IH; try (split; discriminate); contradiction.
+    pose proof (finish_name_at_total b acc ns) as [F1 F2].
+    destruct (finish_name_at b (Some acc) ns); cbn [bind]; try apply IH; try (split; discriminate); contradiction.
 Qed.
 
 Lemma parse_line_total line : total (parse_line line).
 Proof.
   rewrite parse_line_refines. unfold parse_line'.
-  pose proof (ploop_total line QSkipAddr LOCALHOST_V4 []) as [P1 P2].
-  destruct (ploop line QSkipAddr LOCALHOST_V4 []) as [[[q a] ns]| | |]; cbn [bind]; try contradiction; try (split; discriminate).
+  pose proof (ploop_total line QSkipAddr LOCALHOST_V4 None []) as [P1 P2].
+  destruct (ploop line QSkipAddr LOCALHOST_V4 None []) as [[[[q a] b] ns]| | |]; cbn [bind]; try contradiction; try (split; discriminate).
   unfold tail_q.
-  assert (T : total (match q with QName acc => finish_name (Some acc) ns | _ => Ok ns end)).
-  { destruct q; try (split; discriminate). apply finish_name_total. }
+  assert (T : total (match q with QName acc => finish_name_at b (Some acc) ns | _ => Ok ns end)).
+  { destruct q; try (split; discriminate). apply finish_name_at_total. }
   destruct T as [T1 T2].
-  destruct (match q with QName acc => finish_name (Some acc) ns | _ => Ok ns end); cbn [bind];
+  destruct (match q with QName acc => finish_name_at b (Some acc) ns | _ => Ok ns end); cbn [bind];
     try contradiction; try (split; discriminate).
   destruct (is_nil a0); split; discriminate.
 Qed.
@@ -844,118 +849,120 @@ Proof.
   - exact H3.
 Qed.
 
-Lemma ploop_comment r a ns : ploop r QComment a ns = Ok (QComment, a, ns).
+Lemma ploop_comment r a b ns : ploop r QComment a b ns = Ok (QComment, a, b, ns).
 Proof. destruct r; reflexivity. Qed.
 
-Lemma step_ws_skipaddr c t a ns : wsc c -> ploop (c :: t) QSkipAddr a ns = ploop t QSkipAddr a ns.
+Lemma step_ws_skipaddr c t a b ns : wsc c -> ploop (c :: t) QSkipAddr a b ns = ploop t QSkipAddr a b ns.
 Proof. intros H. cbn [ploop]. apply wsc_facts in H as (-> & -> & _ & -> & _). reflexivity. Qed.
-Lemma step_ws_skipname c t a ns : wsc c -> ploop (c :: t) QSkipName a ns = ploop t QSkipName a ns.
+Lemma step_ws_skipname c t a b ns : wsc c -> ploop (c :: t) QSkipName a b ns = ploop t QSkipName a b ns.
 Proof. intros H. cbn [ploop]. apply wsc_facts in H as (-> & -> & _ & -> & _). reflexivity. Qed.
-Lemma step_f_skipaddr c t a ns : fieldc c -> ploop (c :: t) QSkipAddr a ns = ploop t (QAddr [c]) a ns.
+Lemma step_f_skipaddr c t a b ns : fieldc c -> ploop (c :: t) QSkipAddr a b ns = ploop t (QAddr [c]) a b ns.
 Proof. intros H. cbn [ploop]. apply fieldc_facts in H as (-> & -> & -> & _). reflexivity. Qed.
-Lemma step_f_skipname c t a ns : fieldc c -> ploop (c :: t) QSkipName a ns = ploop t (QName [c]) a ns.
+Lemma step_f_skipname c t a b ns : fieldc c -> ploop (c :: t) QSkipName a b ns = ploop t (QName [c]) a b ns.
 Proof. intros H. cbn [ploop]. apply fieldc_facts in H as (-> & -> & -> & _). reflexivity. Qed.
-Lemma step_f_addr c t acc a ns : fieldc c -> c <> 37 ->
-  ploop (c :: t) (QAddr acc) a ns = ploop t (QAddr (acc ++ [c])) a ns.
+Lemma step_f_addr c t acc a b ns : fieldc c -> c <> 37 ->
+  ploop (c :: t) (QAddr acc) a b ns = ploop t (QAddr (acc ++ [c])) a b ns.
 Proof.
   intros H Hp. cbn [ploop]. apply fieldc_facts in H as (-> & -> & -> & _).
   apply N.eqb_neq in Hp. rewrite Hp. reflexivity.
 Qed.
-Lemma step_f_name c t acc a ns : fieldc c -> ploop (c :: t) (QName acc) a ns = ploop t (QName (acc ++ [c])) a ns.
+Lemma step_f_name c t acc a b ns : fieldc c -> ploop (c :: t) (QName acc) a b ns = ploop t (QName (acc ++ [c])) a b ns.
 Proof. intros H. cbn [ploop]. apply fieldc_facts in H as (-> & -> & -> & _). reflexivity. Qed.
-Lemma step_ws_addr c t acc a ns : wsc c ->
-  ploop (c :: t) (QAddr acc) a ns =
+(* white space after the address field: a malformed address is remembered, not reported *)
+Lemma step_ws_addr c t acc a b ns : wsc c ->
+  ploop (c :: t) (QAddr acc) a b ns =
   match parse_ip acc with
-  | Some addr => ploop t QSkipName addr ns
-  | None => Err (CouldNotParseAddress acc)
+  | Some addr => ploop t QSkipName addr b ns
+  | None => ploop t QSkipName a (Some acc) ns
   end.
 Proof. intros H. cbn [ploop]. apply wsc_facts in H as (-> & -> & -> & -> & _). reflexivity. Qed.
-Lemma step_ws_name c t acc a ns : wsc c ->
-  ploop (c :: t) (QName acc) a ns = (let* ns' := finish_name (Some acc) ns in ploop t QSkipName a ns').
+Lemma step_ws_name c t acc a b ns : wsc c ->
+  ploop (c :: t) (QName acc) a b ns = (let* ns' := finish_name_at b (Some acc) ns in ploop t QSkipName a b ns').
 Proof. intros H. cbn [ploop]. apply wsc_facts in H as (-> & -> & _ & -> & _). reflexivity. Qed.
-Lemma step_hash_name t acc a ns :
-  ploop (35 :: t) (QName acc) a ns = (let* ns' := finish_name (Some acc) ns in Ok (QComment, a, ns')).
+Lemma step_hash_name t acc a b ns :
+  ploop (35 :: t) (QName acc) a b ns = (let* ns' := finish_name_at b (Some acc) ns in Ok (QComment, a, b, ns')).
 Proof.
   cbn [ploop]. assert (is_ascii 35 = true) as -> by reflexivity. assert (35 =? 35 = true) as -> by reflexivity.
-  cbn [negb]. destruct (finish_name (Some acc) ns); cbn [bind]; try reflexivity. apply ploop_comment.
+  cbn [negb]. destruct (finish_name_at b (Some acc) ns); cbn [bind]; try reflexivity. apply ploop_comment.
 Qed.
-Lemma step_hash_other t q a ns : (forall acc, q <> QName acc) ->
-  ploop (35 :: t) q a ns = Ok (QComment, a, ns).
+Lemma step_hash_other t q a b ns : (forall acc, q <> QName acc) ->
+  ploop (35 :: t) q a b ns = Ok (QComment, a, b, ns).
 Proof.
   intros H. cbn [ploop]. assert (is_ascii 35 = true) as -> by reflexivity. assert (35 =? 35 = true) as -> by reflexivity.
   cbn [negb]. destruct q; try reflexivity; try apply ploop_comment. exfalso. apply (H acc). reflexivity.
 Qed.
-Lemma step_pct_addr t acc a ns : ploop (37 :: t) (QAddr acc) a ns = Ok (QAddr acc, a, ns).
+Lemma step_pct_addr t acc a b ns : ploop (37 :: t) (QAddr acc) a b ns = Ok (QAddr acc, a, b, ns).
 Proof. reflexivity. Qed.
 
-Lemma ploop_ws_skipaddr w : forall r a ns, Forall wsc w -> ploop (w ++ r) QSkipAddr a ns = ploop r QSkipAddr a ns.
+Lemma ploop_ws_skipaddr w : forall r a b ns, Forall wsc w -> ploop (w ++ r) QSkipAddr a b ns = ploop r QSkipAddr a b ns.
 Proof.
-  induction w as [|c w IH]; intros r a ns H; [reflexivity|]. inversion H; subst.
+  induction w as [|c w IH]; intros r a b ns H; [reflexivity|]. inversion H; subst.
   cbn [app]. rewrite step_ws_skipaddr by assumption. apply IH. assumption.
 Qed.
-Lemma ploop_ws_skipname w : forall r a ns, Forall wsc w -> ploop (w ++ r) QSkipName a ns = ploop r QSkipName a ns.
+Lemma ploop_ws_skipname w : forall r a b ns, Forall wsc w -> ploop (w ++ r) QSkipName a b ns = ploop r QSkipName a b ns.
 Proof.
-  induction w as [|c w IH]; intros r a ns H; [reflexivity|]. inversion H; subst.
+  induction w as [|c w IH]; intros r a b ns H; [reflexivity|]. inversion H; subst.
   cbn [app]. rewrite step_ws_skipname by assumption. apply IH. assumption.
 Qed.
-Lemma ploop_field_addr f : forall r acc a ns, Forall fieldc f -> Forall (fun c => c <> 37) f ->
-  ploop (f ++ r) (QAddr acc) a ns = ploop r (QAddr (acc ++ f)) a ns.
+Lemma ploop_field_addr f : forall r acc a b ns, Forall fieldc f -> Forall (fun c => c <> 37) f ->
+  ploop (f ++ r) (QAddr acc) a b ns = ploop r (QAddr (acc ++ f)) a b ns.
 Proof.
-  induction f as [|c f IH]; intros r acc a ns H Hp; [rewrite app_nil_r; reflexivity|].
+  induction f as [|c f IH]; intros r acc a b ns H Hp; [rewrite app_nil_r; reflexivity|].
   inversion H; subst. inversion Hp; subst.
   cbn [app]. rewrite step_f_addr by assumption. rewrite IH by assumption. rewrite <- app_assoc. reflexivity.
 Qed.
-Lemma ploop_field_name f : forall r acc a ns, Forall fieldc f ->
-  ploop (f ++ r) (QName acc) a ns = ploop r (QName (acc ++ f)) a ns.
+Lemma ploop_field_name f : forall r acc a b ns, Forall fieldc f ->
+  ploop (f ++ r) (QName acc) a b ns = ploop r (QName (acc ++ f)) a b ns.
 Proof.
-  induction f as [|c f IH]; intros r acc a ns H; [rewrite app_nil_r; reflexivity|].
+  induction f as [|c f IH]; intros r acc a b ns H; [rewrite app_nil_r; reflexivity|].
   inversion H; subst.
   cbn [app]. rewrite step_f_name by assumption. rewrite IH by assumption. rewrite <- app_assoc. reflexivity.
 Qed.
 
 (* a whole field read from the skipping state *)
-Lemma ploop_addr_field f r a ns : field f -> nopct f ->
-  ploop (f ++ r) QSkipAddr a ns = ploop r (QAddr f) a ns.
+Lemma ploop_addr_field f r a b ns : field f -> nopct f ->
+  ploop (f ++ r) QSkipAddr a b ns = ploop r (QAddr f) a b ns.
 Proof.
   intros [Hne Hf] Hp. destruct f as [|c f]; [contradiction|]. inversion Hf; subst.
   cbn [app]. rewrite step_f_skipaddr by assumption. apply (ploop_field_addr f r [c]); assumption.
 Qed.
-Lemma ploop_name_field f r a ns : field f ->
-  ploop (f ++ r) QSkipName a ns = ploop r (QName f) a ns.
+Lemma ploop_name_field f r a b ns : field f ->
+  ploop (f ++ r) QSkipName a b ns = ploop r (QName f) a b ns.
 Proof.
   intros [Hne Hf]. destruct f as [|c f]; [contradiction|]. inversion Hf; subst.
   cbn [app]. rewrite step_f_skipname by assumption. apply (ploop_field_name f r [c]); assumption.
 Qed.
 
-(* finishing names one after the other *)
-Fixpoint finish_all (strs : list (list N)) (ns : list dname) : res herr (list dname) :=
+(* finishing names one after the other; [b] = the malformed address read before them, if any *)
+Fixpoint finish_all (b : option (list N)) (strs : list (list N)) (ns : list dname) : res herr (list dname) :=
   match strs with
   | [] => Ok ns
-  | s :: t => let* ns' := finish_name (Some s) ns in finish_all t ns'
+  | s :: t => let* ns' := finish_name_at b (Some s) ns in finish_all b t ns'
   end.
 
 Definition line_result (a : ipaddr) (r : res herr (list dname)) : res herr (option (ipaddr * list dname)) :=
   let* ns := r in if is_nil ns then Ok None else Ok (Some (a, ns)).
 
 (* the end of a line: white space, then possibly a comment *)
-Lemma line_end_name trail c acc a ns : Forall wsc trail ->
-  (let* r := ploop (trail ++ render_comment c) (QName acc) a ns in tail_q r)
-  = line_result a (finish_name (Some acc) ns).
+Lemma line_end_name trail c acc a b ns : Forall wsc trail ->
+  (let* r := ploop (trail ++ render_comment c) (QName acc) a b ns in tail_q r)
+  = line_result a (finish_name_at b (Some acc) ns).
 Proof.
   intros Ht. unfold line_result. destruct trail as [|w trail].
   - cbn [app]. destruct c as [t|]; cbn [render_comment].
-    + rewrite step_hash_name. destruct (finish_name (Some acc) ns); reflexivity.
+    + rewrite step_hash_name. destruct (finish_name_at b (Some acc) ns); reflexivity.
     + cbn [ploop bind tail_q]. reflexivity.
   - inversion Ht; subst. cbn [app]. rewrite step_ws_name by assumption.
-    destruct (finish_name (Some acc) ns) as [ns'| | |]; cbn [bind]; try reflexivity.
+    destruct (finish_name_at b (Some acc) ns) as [ns'| | |]; cbn [bind]; try reflexivity.
     rewrite ploop_ws_skipname by assumption.
     destruct c as [t|]; cbn [render_comment].
     + rewrite step_hash_other by discriminate. reflexivity.
     + reflexivity.
 Qed.
 
-Lemma line_end_skip trail c q a ns : Forall wsc trail -> q = QSkipName \/ q = QSkipAddr ->
-  (let* r := ploop (trail ++ render_comment c) q a ns in tail_q r)
+(* ... in a skipping state nothing is pending: a remembered malformed address is forgotten *)
+Lemma line_end_skip trail c q a b ns : Forall wsc trail -> q = QSkipName \/ q = QSkipAddr ->
+  (let* r := ploop (trail ++ render_comment c) q a b ns in tail_q r)
   = if is_nil ns then Ok None else Ok (Some (a, ns)).
 Proof.
   intros Ht [-> | ->].
@@ -973,23 +980,23 @@ Lemma bind_assoc {E A B C} (r : res E A) (f : A -> res E B) (g : B -> res E C) :
   bind (bind r f) g = bind r (fun x => bind (f x) g).
 Proof. destruct r; reflexivity. Qed.
 
-Lemma names_then_end names : forall acc a ns trail c,
+Lemma names_then_end names : forall acc a b ns trail c,
   Forall wf_pair names -> Forall wsc trail ->
-  (let* r := ploop (concat (map (fun p => fst p ++ snd p) names) ++ trail ++ render_comment c) (QName acc) a ns
+  (let* r := ploop (concat (map (fun p => fst p ++ snd p) names) ++ trail ++ render_comment c) (QName acc) a b ns
    in tail_q r)
-  = line_result a (finish_all (acc :: map snd names) ns).
+  = line_result a (finish_all b (acc :: map snd names) ns).
 Proof.
-  induction names as [|[ws nm] names IH]; intros acc a ns trail c Hn Ht.
+  induction names as [|[ws nm] names IH]; intros acc a b ns trail c Hn Ht.
   - cbn [map concat app finish_all]. rewrite line_end_name by assumption.
-    unfold line_result. destruct (finish_name (Some acc) ns); reflexivity.
+    unfold line_result. destruct (finish_name_at b (Some acc) ns); reflexivity.
   - inversion Hn as [|? ? (Hne & Hws & Hf) Hn']; subst. cbn [fst snd] in *.
     cbn [map concat fst snd]. rewrite <- !app_assoc.
     destruct ws as [|w ws]; [contradiction|]. inversion Hws; subst.
     cbn [app]. rewrite step_ws_name by assumption.
     cbn [finish_all]. unfold line_result. rewrite !bind_assoc.
-    destruct (finish_name (Some acc) ns) as [ns1| | |]; cbn [bind]; try reflexivity.
+    destruct (finish_name_at b (Some acc) ns) as [ns1| | |]; cbn [bind]; try reflexivity.
     rewrite ploop_ws_skipname by assumption. rewrite ploop_name_field by assumption.
-    rewrite (IH nm a ns1 trail c Hn' Ht). reflexivity.
+    rewrite (IH nm a b ns1 trail c Hn' Ht). reflexivity.
 Qed.
 
 (* a name field is read relative to the root *)
@@ -1003,30 +1010,35 @@ Definition dedupe_into (dn ns : list dname) : list dname := fold_left (fun s n =
 
 Lemma finish_all_ok strs : forall dn ns,
   Forall (fun s => s <> []) strs -> all_some (map abs_name strs) = Some dn ->
-  finish_all strs ns = Ok (dedupe_into dn ns).
+  finish_all None strs ns = Ok (dedupe_into dn ns).
 Proof.
   induction strs as [|s strs IH]; intros dn ns Hne Hall.
   - injection Hall as <-. reflexivity.
   - inversion Hne as [|? ? Hs Hne']; subst. cbn [map all_some] in Hall.
     destruct (abs_name s) as [d|] eqn:Ed; [|discriminate].
     destruct (all_some (map abs_name strs)) as [dn'|] eqn:Edn; [|discriminate]. injection Hall as <-.
-    cbn [finish_all]. unfold finish_name. rewrite (frds_abs s Hs), Ed. cbn [bind].
+    cbn [finish_all finish_name_at]. unfold finish_name. rewrite (frds_abs s Hs), Ed. cbn [bind].
     rewrite (IH dn' _ Hne' eq_refl). reflexivity.
 Qed.
 
 Lemma finish_all_err good bad rest : forall dn ns,
   Forall (fun s => s <> []) good -> bad <> [] ->
   all_some (map abs_name good) = Some dn -> abs_name bad = None ->
-  finish_all (good ++ bad :: rest) ns = Err (CouldNotParseName bad).
+  finish_all None (good ++ bad :: rest) ns = Err (CouldNotParseName bad).
 Proof.
   induction good as [|s good IH]; intros dn ns Hne Hb Hall Hbad.
-  - cbn [app finish_all]. unfold finish_name. rewrite (frds_abs bad Hb), Hbad. reflexivity.
+  - cbn [app finish_all finish_name_at]. unfold finish_name. rewrite (frds_abs bad Hb), Hbad. reflexivity.
   - inversion Hne as [|? ? Hs Hne']; subst. cbn [map all_some] in Hall.
     destruct (abs_name s) as [d|] eqn:Ed; [|discriminate].
     destruct (all_some (map abs_name good)) as [dn'|] eqn:Edn; [|discriminate].
-    cbn [app finish_all]. unfold finish_name at 1. rewrite (frds_abs s Hs), Ed. cbn [bind].
+    cbn [app finish_all finish_name_at]. unfold finish_name at 1. rewrite (frds_abs s Hs), Ed. cbn [bind].
     apply (IH dn' _ Hne' Hb eq_refl Hbad).
 Qed.
+
+(* with a malformed address pending, the first name -- well-formed or not -- raises the address error *)
+Lemma finish_all_bad addr s rest ns :
+  finish_all (Some addr) (s :: rest) ns = Err (CouldNotParseAddress addr).
+Proof. reflexivity. Qed.
 
 Lemma set_insert_nonempty n s : set_insert n s <> [].
 Proof.
@@ -1045,11 +1057,12 @@ Qed.
 Lemma wf_mline_tail_nopct m : wf_mline m -> Forall fieldc (m_addr m) /\ m_addr m <> [].
 Proof. intros (_ & [Hne Hf] & _). split; assumption. Qed.
 
+(* a line that maps at least one name: a malformed address is the error, whatever the names are *)
 Lemma parse_map_line m p names : wf_mline m -> m_names m = p :: names ->
   parse_line' (render_line (Map m)) =
   match parse_ip (m_addr m) with
   | None => Err (CouldNotParseAddress (m_addr m))
-  | Some a => line_result a (finish_all (map snd (m_names m)) [])
+  | Some a => line_result a (finish_all None (map snd (m_names m)) [])
   end.
 Proof.
   intros (Hl & Ha & Hp & Hn & Ht & _) En. unfold parse_line'. cbn [render_line].
@@ -1058,20 +1071,16 @@ Proof.
   destruct p as [ws nm]. cbn [fst snd] in *. cbn [map concat fst snd]. rewrite <- !app_assoc.
   destruct ws as [|w ws]; [contradiction|]. inversion Hws; subst.
   cbn [app]. rewrite step_ws_addr by assumption.
-  destruct (parse_ip (m_addr m)) as [a|]; [|reflexivity].
-  rewrite ploop_ws_skipname by assumption. rewrite ploop_name_field by assumption.
-  apply names_then_end; assumption.
+  destruct (parse_ip (m_addr m)) as [a|].
+  - rewrite ploop_ws_skipname by assumption. rewrite ploop_name_field by assumption.
+    apply names_then_end; assumption.
+  - rewrite ploop_ws_skipname by assumption. rewrite ploop_name_field by assumption.
+    rewrite names_then_end by assumption. reflexivity.
 Qed.
 
+(* a line that maps no names is ignored whatever its address field is (commit 25db594) *)
 Lemma parse_addr_only m : wf_mline m -> m_names m = [] ->
-  parse_line' (render_line (Map m)) =
-  match m_trail m with
-  | [] => Ok None
-  | _ :: _ => match parse_ip (m_addr m) with
-              | Some _ => Ok None
-              | None => Err (CouldNotParseAddress (m_addr m))
-              end
-  end.
+  parse_line' (render_line (Map m)) = Ok None.
 Proof.
   intros (Hl & Ha & Hp & Hn & Ht & _) En. unfold parse_line'. cbn [render_line].
   rewrite ploop_ws_skipaddr by assumption. rewrite ploop_addr_field by assumption.
@@ -1081,9 +1090,13 @@ Proof.
     + rewrite step_hash_other by discriminate. reflexivity.
     + reflexivity.
   - inversion Ht; subst. cbn [app]. rewrite step_ws_addr by assumption.
-    destruct (parse_ip (m_addr m)) as [a|]; [|reflexivity].
-    apply (line_end_skip ws (m_comment m) QSkipName a []); [assumption|left; reflexivity].
+    destruct (parse_ip (m_addr m)) as [a|];
+      apply (line_end_skip ws (m_comment m) QSkipName _ _ []); try assumption; left; reflexivity.
 Qed.
+
+Theorem address_only_ignored m : wf_mline m -> m_names m = [] ->
+  parse_line (render_line (Map m)) = Ok None.
+Proof. intros H E. rewrite parse_line_refines. apply parse_addr_only; assumption. Qed.
 
 Definition contrib_result (c : contrib) : option (ipaddr * list dname) :=
   match c with
@@ -1104,8 +1117,7 @@ Proof.
     + rewrite step_pct_addr. reflexivity.
     + unfold nopct. destruct pre; [constructor|]. inversion Hp; assumption.
   - cbn [line_contrib] in *. destruct (m_names m) as [|p names] eqn:En.
-    + rewrite (parse_addr_only m Hwf En).
-      destruct (m_trail m); [reflexivity|]. destruct (parse_ip (m_addr m)); [reflexivity|contradiction].
+    + rewrite (parse_addr_only m Hwf En). reflexivity.
     + rewrite (parse_map_line m p names Hwf En).
       destruct (parse_ip (m_addr m)) as [a|]; [|contradiction].
       rewrite En.
@@ -1688,13 +1700,14 @@ Proof.
   - constructor; [split; [exact ex_foo_safe|exact ex_v6_ok]|constructor].
 Qed.
 
-(* " 1.2.3.4 foo\tBar.#c" LF, "#é" CRLF, "fe80::1%eth0 x" LF, "::1 foo" LF *)
+(* " 1.2.3.4 foo\tBar.#c" LF, "#é" CRLF, "fe80::1%eth0 x" LF, "::1 foo" LF, "zzz #c" LF *)
 Definition ex_file : file :=
   [ (Map {| m_lead := [32]; m_addr := [49;46;50;46;51;46;52];
             m_names := [([32], [102;111;111]); ([9], [66;97;114;46])]; m_trail := []; m_comment := Some [99] |}, LF);
     (Comment [] [233], CRLF);
     (Scoped [] [102;101;56;48;58;58;49] [101;116;104;48;32;120], LF);
-    (Map {| m_lead := []; m_addr := [58;58;49]; m_names := [([32;32], [102;111;111])]; m_trail := [13;32]; m_comment := None |}, LF) ].
+    (Map {| m_lead := []; m_addr := [58;58;49]; m_names := [([32;32], [102;111;111])]; m_trail := [13;32]; m_comment := None |}, LF);
+    (Map {| m_lead := []; m_addr := [122;122;122]; m_names := []; m_trail := [32]; m_comment := Some [99] |}, LF) ].
 
 Ltac no_trailing_cr :=
   let s := fresh "s" in let E := fresh "E" in
@@ -1711,12 +1724,27 @@ Proof.
   - split; [split; [|no_trailing_cr]|vm_compute; discriminate].
     cbn [wf_shape]. unfold wf_mline, field, nopct, noline, wsc, fieldc. cbn [m_lead m_addr m_names m_trail m_comment tl fst snd].
     solve_chars; try (right; right; right; right; reflexivity); right; right; right; left; reflexivity.
+  - split; [split; [|no_trailing_cr]|vm_compute; discriminate].
+    cbn [wf_shape]. unfold wf_mline, field, nopct, noline, wsc, fieldc. cbn [m_lead m_addr m_names m_trail m_comment tl fst snd].
+    solve_chars; right; right; right; right; reflexivity.
 Qed.
 
 Example ex_file_parses :
   deserialise (render ex_file)
   = Ok {| h_v4 := [(ex_foo, 16909060); (mk [[98;97;114]; []], 16909060)]; h_v6 := [(ex_foo, [0;0;0;0;0;0;0;1])] |}.
 Proof. vm_compute. reflexivity. Qed.
+
+(* the witness of the former finding address-only-malformed-line-rejected (fixed by 25db594):
+   "zzz \n1.2.3.4 foo" now reads as one mapping ... *)
+Example ex_bad_address_only_ignored :
+  deserialise [122;122;122;32;10; 49;46;50;46;51;46;52;32;102;111;111]
+  = Ok {| h_v4 := [(ex_foo, 16909060)]; h_v6 := [] |}.
+Proof. vm_compute. reflexivity. Qed.
+(* ... while "zzz foo" and "zzz a..b" (the address error wins over the name error) are still errors *)
+Example ex_bad_address_with_name :
+  deserialise [122;122;122;32;102;111;111] = Err (CouldNotParseAddress [122;122;122])
+  /\ deserialise [122;122;122;32;97;46;46;98] = Err (CouldNotParseAddress [122;122;122]).
+Proof. split; vm_compute; reflexivity. Qed.
 
 (* ====================================================================== *)
 (* Part 6: lookups in the converted zone                                   *)
